@@ -65,12 +65,13 @@ static scpi_result_t c01_pusherr(scpi_t * context) {
 /* a handler that announces a response block whose size comes from its parameter (a waveform dump streamed in windows):
  * every length a uint32_t parameter can carry reaches SCPI_ResultArbitraryBlockHeader, first in the response or behind another item */
 static scpi_result_t c01_announce(scpi_t * context) {
-    static const uint32_t dflt[8] = { 0u, 9u, 10u, 99999999u, 100000000u, 999999999u, 1000000000u, 4294967295u };
-    uint32_t n = dflt[c01_blob[0] & 7];
-    SCPI_ParamUInt32(context, &n, FALSE);
+    static const uint64_t dflt[16] = { 0u, 9u, 10u, 99999999u, 100000000u, 999999999u, 1000000000u, 4294967295u,
+        4294967296ull, 9999999999ull, 10000000000ull, 99999999999ull, 100000000000ull, 9223372036854775807ull, 9223372036854775808ull, 18446744073709551615ull };
+    uint64_t n = dflt[c01_blob[0] & 15]; /* the length parameter is a size_t: on LP64 every 64-bit value reaches the function */
+    SCPI_ParamUInt64(context, &n, FALSE);
     if (c01_blob[1] & 1) SCPI_ResultInt32(context, 7);
-    SCPI_ResultArbitraryBlockHeader(context, n);
-    SCPI_ResultArbitraryBlockData(context, c01_blob, n < 8 ? n : 8);
+    SCPI_ResultArbitraryBlockHeader(context, (size_t) n);
+    SCPI_ResultArbitraryBlockData(context, c01_blob, n < 8 ? (size_t) n : 8);
     return SCPI_RES_OK;
 }
 
